@@ -50,17 +50,22 @@ type C17Case struct {
 	Steps      []LedStep `json:"steps"`
 	Before     []string  `json:"before,omitempty"` // other controllers the server lists before the device's keyboard
 	After      []string  `json:"after,omitempty"`  // ... and after it
+	// Hidraw numbers of the device's keyboard and of the other HID controllers in this connection ([0,1] when absent), and,
+	// if Prior is set, in an earlier connection of the same keyboard within this process (it was unplugged and plugged in
+	// again: the kernel hands out hidraw numbers anew, the event nodes of the harness stay event5 / event9).
+	Hidraw []int `json:"hidraw,omitempty"`
+	Prior  []int `json:"prior,omitempty"`
 }
 
 // otherController: what else an OpenRGB server typically lists next to the keyboard.
-func otherController(kind string, leds []string) OrgbController {
+func otherController(kind string, leds []string, otherHidraw int) OrgbController {
 	switch kind {
 	case "motherboard":
 		return OrgbController{Name: "Fake Motherboard", Type: 0, Location: "I2C: /dev/i2c-0, address 0x40", LEDs: []string{"Aura 1", "Aura 2", "Aura 3"}}
 	case "mouse":
-		return OrgbController{Name: "Fake Mouse", Type: 6, Location: "HID: /dev/hidraw1", LEDs: []string{"Logo", "Wheel"}}
+		return OrgbController{Name: "Fake Mouse", Type: 6, Location: fmt.Sprintf("HID: /dev/hidraw%d", otherHidraw), LEDs: []string{"Logo", "Wheel"}}
 	case "other-keyboard": // another keyboard, on another event node
-		return OrgbController{Name: "Generic Keyboard", Type: 5, Location: "HID: /dev/hidraw1", LEDs: leds}
+		return OrgbController{Name: "Generic Keyboard", Type: 5, Location: fmt.Sprintf("HID: /dev/hidraw%d", otherHidraw), LEDs: leds}
 	case "keyboard-no-hidraw":
 		return OrgbController{Name: "Laptop Keyboard", Type: 5, Location: "ACPI: embedded controller", LEDs: leds}
 	}
@@ -84,7 +89,14 @@ func ledInputDevice(d *Desc, event string) input.Device {
 	for i := range dev.Handlers {
 		dev.Handlers[i].DeviceInfo = input.VerifDeviceInfo(event, dev.Handlers[i].DeviceInfo)
 	}
-	dev.AbsInfos = map[string]map[evdev.EvCode]evdev.AbsInfo{event: axisInfos(d)}
+	// the LED tests use one event node for the whole device (the loop matches the device by that name)
+	merged := map[evdev.EvCode]evdev.AbsInfo{}
+	for _, s := range subHandlers(d) {
+		for c, ai := range axisInfosOf(d, s) {
+			merged[c] = ai
+		}
+	}
+	dev.AbsInfos = map[string]map[evdev.EvCode]evdev.AbsInfo{event: merged}
 	return dev
 }
 
@@ -441,19 +453,71 @@ func allRed(colors [][3]byte) bool {
 	return true
 }
 
+func c17PriorConnection(c C17Case, ctrls []OrgbController, ci int) *Violation {
+	srv, err := NewOrgbServer(ctrls)
+	if err != nil {
+		return violation("C17", "harness", "", "fake OpenRGB server: %v", err)
+	}
+	defer srv.Close()
+	cfg, _, pv := parseDesc("C17", c.D)
+	if pv != nil {
+		return pv
+	}
+	ld := startLedDevice(config.DeviceConfig{ConfigFile: "verif.toml", ConfigType: "user", Config: cfg}, c.D, "event5", 0, srv.Port, make(chan midi.Event))
+	deadline := time.Now().Add(12 * time.Second)
+	for srv.Last(ci) == nil && time.Now().Before(deadline) {
+		srv.WaitFrame(50 * time.Millisecond)
+	}
+	seen := srv.Last(ci) != nil
+	close(ld.in)
+	select {
+	case p := <-ld.done:
+		if p != "" {
+			return violation("C17", "panic", "", "device code panicked in the earlier connection: %s", p)
+		}
+	case <-time.After(10 * time.Second):
+		return violation("C17", "no-return", "", "ProcessEvents of the earlier connection did not return after the event stream ended")
+	}
+	if !seen {
+		return violation("C17", "harness", "no-frames", "the LED loop of the earlier connection sent no frame within 12 s")
+	}
+	return nil
+}
+
 func checkC17(c C17Case) (nontrivial bool, v *Violation) {
 	fixture := os.Getenv("VERIF_HIDRAW_FIXTURE")
-	if err := BuildHidrawFixture(fixture, map[int]string{0: "event5", 1: "event9"}); err != nil {
-		return false, violation("C17", "harness", "", "fixture: %v", err)
+	arrange := func(nums []int) ([]OrgbController, int, *Violation) {
+		own, other := 0, 1
+		if len(nums) == 2 && nums[0] != nums[1] {
+			own, other = nums[0], nums[1]
+		}
+		if err := BuildHidrawFixture(fixture, map[int]string{own: "event5", other: "event9"}); err != nil {
+			return nil, 0, violation("C17", "harness", "", "fixture: %v", err)
+		}
+		var ctrls []OrgbController
+		for _, k := range c.Before {
+			ctrls = append(ctrls, otherController(k, c.LEDs, other))
+		}
+		ci := len(ctrls) // the index the server lists the device's keyboard under
+		ctrls = append(ctrls, OrgbController{Name: c.Controller, Type: 5, Location: fmt.Sprintf("HID: /dev/hidraw%d", own), LEDs: c.LEDs})
+		for _, k := range c.After {
+			ctrls = append(ctrls, otherController(k, c.LEDs, other))
+		}
+		return ctrls, ci, nil
 	}
-	var ctrls []OrgbController
-	for _, k := range c.Before {
-		ctrls = append(ctrls, otherController(k, c.LEDs))
+	if c.Prior != nil {
+		// an earlier connection of the same keyboard, under the earlier numbering: up to its first frame, then unplugged
+		ctrls, ci, av := arrange(c.Prior)
+		if av != nil {
+			return false, av
+		}
+		if pv := c17PriorConnection(c, ctrls, ci); pv != nil {
+			return true, pv
+		}
 	}
-	ci := len(ctrls) // the index the server lists the device's keyboard under
-	ctrls = append(ctrls, OrgbController{Name: c.Controller, Type: 5, Location: "HID: /dev/hidraw0", LEDs: c.LEDs})
-	for _, k := range c.After {
-		ctrls = append(ctrls, otherController(k, c.LEDs))
+	ctrls, ci, av := arrange(c.Hidraw)
+	if av != nil {
+		return false, av
 	}
 	srv, err := NewOrgbServer(ctrls)
 	if err != nil {
@@ -597,6 +661,7 @@ func checkC17(c C17Case) (nontrivial bool, v *Violation) {
 		return true, violation("C17", "frames-to-wrong-controller", "", "%s", st)
 	}
 	classifyIf(len(c.Before) > 0, "other controllers listed before the keyboard")
+	classifyIf(c.Prior != nil, "keyboard plugged in again under other hidraw numbers")
 	missing := false
 	for _, a := range c.D.Actions {
 		found := false
@@ -718,6 +783,21 @@ func genC17(t *rapid.T) C17Case {
 	if rapid.IntRange(0, 2).Draw(t, "hasOthers") == 0 {
 		c.Before = rapid.SliceOfN(rapid.SampledFrom(otherKinds), 0, 3).Draw(t, "before")
 		c.After = rapid.SliceOfN(rapid.SampledFrom(otherKinds), 0, 2).Draw(t, "after")
+	}
+	if rapid.IntRange(0, 7).Draw(t, "replug") == 0 {
+		nums := rapid.Permutation([]int{0, 1, 2, 3}).Draw(t, "hidrawNumbers")
+		c.Prior = []int{nums[0], nums[1]}
+		switch rapid.IntRange(0, 2).Draw(t, "renumbering") {
+		case 0: // the two keyboards swap their numbers
+			c.Hidraw = []int{nums[1], nums[0]}
+		case 1: // the other keyboard takes over this keyboard's old number
+			c.Hidraw = []int{nums[2], nums[0]}
+		default:
+			c.Hidraw = []int{nums[2], nums[3]}
+		}
+		if len(c.Before) == 0 || rapid.Bool().Draw(t, "otherFirst") {
+			c.Before = append([]string{"other-keyboard"}, c.Before...)
+		}
 	}
 	if c.Controller == "HyperX Alloy Elite 2 (HP)" && rapid.Bool().Draw(t, "withStrip") {
 		for i := 1; i <= 18; i++ {
